@@ -236,6 +236,17 @@ def conv_shard(H, Wd, tier):
                         cov = covered.expand(B, -1, -1, -1)
                         if tuple(back.shape) != tuple(xx.shape) or not torch.allclose(back[cov], xx[cov]):
                             tally.violation("conv:like_input-roundtrip", cfg, "like_input(like_synaptic(x)) != x on covered positions")
+                        # the same round trip for boolean (spikes) and integer data: values and dtype preserved
+                        for xd in ((xx.long() % 3 == 0), (xx.long() % 5)):
+                            try:
+                                bk = c.like_input(c.like_synaptic(xd))
+                            except Exception as ex:
+                                tally.violation(f"conv:like_input-roundtrip:{xd.dtype}:exception", cfg, repr(ex))
+                                continue
+                            if bk.dtype != xd.dtype or tuple(bk.shape) != tuple(xd.shape) or not torch.equal(bk[cov], xd[cov]):
+                                tally.violation(f"conv:like_input-roundtrip:{str(xd.dtype).replace('torch.', '')}", cfg,
+                                                f"like_input(like_synaptic(x)) for {xd.dtype} data: dtype {bk.dtype}, values equal on covered positions: "
+                                                f"{bool(tuple(bk.shape) == tuple(xd.shape) and torch.equal(bk[cov].to(xd.dtype), xd[cov]))}")
                         # receptive views
                         syncur = c.like_synaptic(cur)
                         try:
